@@ -361,6 +361,7 @@ def _unscoped_callers(ctx, rng, fn, roots):
 def d5(ctx, rep):
     prog = ctx.prog
     rep.rule('D5.writers', 'random_state attributes only ever receive validate_random_state(...) results')
+    rep.rule('D5.share', 'library code never seeds one model with another model\'s random state (two nested seeded scopes would share / shadow one stream)')
     rep.rule('D5.validate', 'validate_random_state: None->None, int->RandomState(seed=int), RandomState->same object, else TypeError')
     VAL = 'copulas.utils.validate_random_state'
     n = 0
@@ -376,6 +377,27 @@ def d5(ctx, rep):
                                   'assigned from validate_random_state(...)',
                                   'random_state receives a value that did not pass validate_random_state')
     rep.floor('D5.writers', 'stores into a random_state attribute', n, 8)
+    shared = 0
+    for fn in prog.functions.values():
+        for c in walk_no_nested(fn.node):
+            if not isinstance(c, ast.Call):
+                continue
+            hands_state = [a for a in list(c.args) + [k.value for k in c.keywords]
+                           if any(isinstance(x, ast.Attribute) and x.attr == 'random_state' for x in ast.walk(a))]
+            is_setter_call = isinstance(c.func, ast.Attribute) and c.func.attr == 'set_random_state'
+            is_ctx = prog.resolve(fn.module, c.func) == SET_RANDOM_STATE
+            if is_ctx or fn.qualname.startswith(RANDOM_STATE_DECORATOR):
+                continue
+            kw_state = [k for k in c.keywords if k.arg == 'random_state' and any(
+                isinstance(x, ast.Attribute) and x.attr == 'random_state' for x in ast.walk(k.value))]
+            if (is_setter_call and not (isinstance(c.func.value, ast.Name) and fn.self_name and c.func.value.id == fn.self_name and not hands_state)) or kw_state:
+                shared += 1
+                rep.bad('D5.share', fn, c, 'a model is seeded from library code with (or next to) another model\'s random state: '
+                        'the inner @random_state scope runs on a private stream, so re-seeding the outer model does not restart '
+                        'its samples and the advanced state is written back to the wrong object')
+    if not shared:
+        rep.ok('D5.share', 'package', None, 'no call of set_random_state / random_state= with a model\'s own state in library code',
+               construct='set_random_state calls')
     # the setter used for the write-back must be a plain validating store
     for c in prog.classes.values():
         m = c.methods.get('set_random_state')
